@@ -138,6 +138,7 @@ def compute_features(sig, fs, f_range, center_extrema='peak', burst_method='cycl
     if burst_method == 'amp' and 'min_n_cycles' not in burst_kwargs.keys():
         burst_kwargs['min_n_cycles'] = threshold_kwargs.copy().pop('min_n_cycles', 3)
     elif burst_method == 'amp' and 'min_n_cycles' in burst_kwargs.keys():
+        check_param_range(threshold_kwargs.get('min_n_cycles', 0), 'min_n_cycles', (0, np.inf))
         threshold_kwargs['min_n_cycles'] = burst_kwargs['min_n_cycles']
 
     # Compute burst features for each cycle
